@@ -208,6 +208,8 @@ def set_order_leaks(fi: FuncInfo, module_sets: set[str]):
             exprs.append((n.iter, "comprehension over a set"))
         elif isinstance(n, ast.Call):
             f = n.func
+            if isinstance(f, ast.Name) and f.id in ("sorted", "min", "max") and n.args and any(k.arg == "key" for k in n.keywords) and _is_set_expr(n.args[0], names):
+                yield n, f"{f.id}() of a set with a key function: elements that compare equal under the key keep the set's iteration order"
             if isinstance(f, ast.Name) and f.id in ("list", "tuple", "enumerate", "iter", "next", "zip", "map", "filter", "reversed", "str", "repr") and n.args:
                 for a in n.args:
                     exprs.append((a, f"{f.id}() of a set"))
@@ -513,6 +515,34 @@ def _r06_4(run: Run, res: Resolver) -> None:
         run.instance("R06.4", f"{m.relpath}:{ci.node.lineno}", f"{cls}: {len(ci.methods)} methods, {len(bad)} write(s) to self outside __init__", ok=not bad)
         for fi, n in bad:
             run.violation("R06.4", m, fi.qualname, n, "a tool method stores state on the tool object: the server keeps one instance per tool, so a call's result could depend on earlier calls")
+    # objects kept on the tool across calls must be stateless
+    def stateful(ci) -> list[str]:
+        out = []
+        for c in res.mro(ci):
+            for fi2 in c.methods.values():
+                if fi2.name in ("__init__", "__post_init__", "__new__"):
+                    continue
+                for n2 in walk_no_nested(fi2.node):
+                    if isinstance(n2, (ast.Attribute, ast.Subscript)) and isinstance(n2.ctx, (ast.Store, ast.Del)):
+                        b2 = n2.value if isinstance(n2, ast.Subscript) else n2
+                        while isinstance(b2, ast.Subscript):
+                            b2 = b2.value
+                        if isinstance(b2, ast.Attribute) and isinstance(b2.value, ast.Name) and b2.value.id == "self":
+                            out.append(f"{c.name}.{fi2.name} stores self.{b2.attr}")
+                    if isinstance(n2, ast.AugAssign) and isinstance(n2.target, ast.Attribute) and isinstance(n2.target.value, ast.Name) and n2.target.value.id == "self":
+                        out.append(f"{c.name}.{fi2.name} updates self.{n2.target.attr}")
+                    if isinstance(n2, ast.Call) and isinstance(n2.func, ast.Attribute) and n2.func.attr in MUTATORS and isinstance(n2.func.value, ast.Attribute) and isinstance(n2.func.value.value, ast.Name) and n2.func.value.value.id == "self":
+                        out.append(f"{c.name}.{fi2.name} mutates self.{n2.func.value.attr}")
+        return out
+
+    for modname, cls in TOOL_CLASSES:
+        m = run.project.mod(modname)
+        ci = m.cls(cls)
+        for attr, aci in sorted(res.self_attr_types(ci).items()):
+            why = stateful(aci)
+            run.instance("R06.4", f"{m.relpath}:{ci.node.lineno}", f"{cls}.{attr} holds a {aci.name} for the lifetime of the tool: {'stateful' if why else 'stateless'}", ok=not why)
+            if why:
+                run.violation("R06.4", m, f"{cls}.__init__", f"self.{attr} = {aci.name}(...)", f"the tool keeps a {aci.name} across calls, and that class changes its own state when used ({why[0]}): a result can depend on the calls served earlier")
     # module-level instances of repo classes (other than enums/singletons/constants)
     for m in run.project.modules.values():
         for name, nodes in m._const_nodes.items():
@@ -559,6 +589,15 @@ def _r06_5(run: Run, res: Resolver) -> None:
                 srcs.add("ambient")
         return "+".join(sorted(srcs)) or "unknown"
 
+    listname = appends[0].func.value.id  # type: ignore[union-attr]
+    rets = [n for n in walk_no_nested(fi.node) if isinstance(n, ast.Return)]
+    ret_ok = bool(rets) and all(isinstance(r.value, ast.Name) and r.value.id == listname for r in rets)
+    rebound = [n for n in walk_no_nested(fi.node) if isinstance(n, ast.Assign) and any(isinstance(t, ast.Name) and t.id == listname for t in n.targets)]
+    reorder = [n for n in walk_no_nested(fi.node) if isinstance(n, ast.Call) and isinstance(n.func, ast.Attribute) and n.func.attr in ("sort", "reverse", "insert", "pop", "remove") and isinstance(n.func.value, ast.Name) and n.func.value.id == listname]
+    run.instance("R06.5", f"{m.relpath}:{fi.node.lineno}", f"get_schema_search_paths: returns the list `{listname}` exactly as appended (no sort/set/reverse/rebinding)", ok=ret_ok and len(rebound) <= 1 and not reorder)
+    if not (ret_ok and len(rebound) <= 1 and not reorder):
+        bad = next((r for r in rets if not (isinstance(r.value, ast.Name) and r.value.id == listname)), None) or (reorder[0] if reorder else rebound[-1])
+        run.violation("R06.5", m, fi.qualname, bad, "the schema search paths are reordered after being collected: priority (packaged before cwd-relative) then depends on path spelling, i.e. on where the process was started")
     origins = [origin(a) for a in appends]
     ok = origins[0] == "package" and all(a.func.attr == "append" for a in appends) and "unknown" not in origins
     # no insert(0, ...) that could put a cwd path first
